@@ -19,7 +19,7 @@ import LitexProofs.Fhdl.PrintSign
   counterexamples, and a static sufficient condition (`staticallyFits`, a value-range analysis) is proved sound.
 
   The printer/simulator defects found by the first build of this check (signed constants printed as unsigned
-  literals, comparison and slice results reported signed, 1-bit signed slices printed bare, full-width slices of
+  literals, comparison, slice and signed-amount shift results reported signed, 1-bit signed slices printed bare, full-width slices of
   signed/negative nodes dropped by the lowerer, unmasked `Mux` condition in the simulator, `output reg` ports
   without initialiser) are repaired in /repo; the model follows the repaired code, their former negative
   witnesses are positive regression examples below, and the side conditions that only excluded them are gone:
@@ -87,35 +87,29 @@ theorem assign_correct_static (e : Expr) (lw : Nat)
 
 def envL (l : List Int) : Env := fun i => l.getD i 0
 
-/-
-  Full statement (does NOT hold, see the negative witness below):
-  theorem printE_sign_correct (e : Expr) : (printE e).2 = selfSigned (printE e).1
--/
+/-- **Printer sign-flag theorem** (full strength since the fix of C01-shift-reported-signed; was `_partial` under
+    `signFlagsOk`).  For EVERY expression, the sign the printer itself attributes to the text it emits (the flag
+    that decides where `$signed({1'd0, x})` promotions go) IS the self-determined type IEEE 1364 gives that text —
+    constants, comparisons, shifts, selects, promotions, `?:` included. -/
+theorem printE_sign_correct (e : Expr) : (printE e).2 = selfSigned (printE e).1 :=
+  printE_sign e
 
-/-- **Printer sign-flag theorem.**  The sign the printer itself attributes to the text it emits (the flag that
-    decides where `$signed({1'd0, x})` promotions go) IS the self-determined type IEEE 1364 gives that text —
-    constants, comparisons, selects, promotions, `?:` included — provided no shift with a signed amount and an
-    unsigned operand lies on a sign-propagating path (`signFlagsOk`; a shift still reports `s1 or s2`). -/
-theorem printE_sign_correct_partial (e : Expr) (h : signFlagsOk e = true) :
-    (printE e).2 = selfSigned (printE e).1 :=
-  printE_sign e h
-
-/-- Non-vacuity: `(a < b) + Mux(c, x[0:4], -3)` (signed a, b, x) satisfies the hypothesis; the flag is "signed". -/
+/-- Non-trivial instance: `(a < b) + Mux(c, x[0:4], -3)` (signed a, b, x): the flag is "signed". -/
 example :
     let e : Expr := .op2 .add (.op2 .lt (.sig 0 8 true) (.sig 1 8 true))
                       (.mux (.sig 2 1 false) (.slice (.sig 3 8 true) 0 4) (.const (-3) 3 true))
-    signFlagsOk e = true ∧ (printE e).2 = true := by decide
+    (printE e).2 = true ∧ selfSigned (printE e).1 = true := by decide
 
-/-- Negative witness (excluded region, candidate finding C01-shift-reported-signed): `u <<< s` with `u` unsigned
-    and a signed amount `s` is reported signed by the printer, Verilog types it by `u` alone: unsigned.  So
-    `(u <<< s) + t` gets no promotion and `t = −1` is zero-extended: u = 1, s = 1 into 16 bits: simulator 1,
-    Verilog 0x0101. -/
+/-- Regression (was C01-shift-reported-signed): `u <<< s` with `u` unsigned and a signed amount `s` is now
+    reported unsigned, as Verilog types it (by `u` alone), so `(u <<< s) + t` promotes it and `t = −1` is
+    sign-extended: u = 1, s = 1 into 16 bits: both sides 1 (the unpromoted text gave 0x0101). -/
 example :
     let sh : Expr := .op2 .shl (.sig 0 4 false) (.sig 1 3 true)
     let e : Expr := .op2 .add sh (.sig 2 8 true)
     let ρ := envL [1, 1, -1]
-    signFlagsOk sh = false ∧ (printE sh).2 = true ∧ selfSigned (printE sh).1 = false ∧
-    envOk ρ e = true ∧ storeF ρ 16 e = 1 ∧ assignV ρ 16 (printE e).1 = 257 ∧ Fits ρ e 16 = false := by decide
+    (printE sh).2 = false ∧ selfSigned (printE sh).1 = false ∧
+    envOk ρ e = true ∧ storeF ρ 16 e = 1 ∧ assignV ρ 16 (printE e).1 = 1 ∧ Fits ρ e 16 = true ∧
+    assignV ρ 16 (.bin .add (.bin .shl (.id 0 4 false) (.id 1 3 true)) (.id 2 8 true)) = 257 := by decide
 
 /-! ## Layer 2 — statements, `always` blocks
 
